@@ -70,6 +70,7 @@ def handlers : List (String × (Json → Except String Json)) := [
   ("C01.iadd_dense", Qv.Drv.C01.iaddDenseJ),
   ("C01.matmul_csr_dense", Qv.Drv.C01.matmulCsrDenseJ),
   ("C01.matmul_dia_dense", Qv.Drv.C01.matmulDiaDenseJ),
+  ("C01.matmul_dense_dia", Qv.Drv.C01.matmulDenseDiaJ),
   ("C01.dia_of_dense", Qv.Drv.C01.diaOfDenseJ)
 ]
 
